@@ -203,7 +203,7 @@ fn configs(tier: Tier) -> Vec<(C06, usize)> {
         match tier {
             Tier::Quick => {
                 v.push((C06 { flavour, fin, reduced: false }, if flavour == Flavour::RemovedFromMulti { 3 } else { 2 }));
-                v.push((C06 { flavour, fin, reduced: true }, if flavour == Flavour::RemovedFromMulti { 4 } else { 3 }));
+                v.push((C06 { flavour, fin, reduced: true }, if flavour == Flavour::RemovedFromMulti { 4 } else { 4 }));
             }
             Tier::Thorough => {
                 v.push((C06 { flavour, fin, reduced: false }, if flavour == Flavour::RemovedFromMulti { 4 } else { 3 }));
